@@ -87,12 +87,20 @@ def Instance.depsClosed (I : Instance) : Bool :=
 
 /-- `deps[sub].push(item)` for every allow-listed `item` (ascending) and every traced edge
 `item → sub` with `sub` allow-listed and the edge kind considered -/
+def optList (o : Option Nat) : List Nat := match o with | some x => [x] | none => []
+
 def depEdges (g : IR) (item : Nat) : List (Nat × EdgeKind) :=
   let i := g.get item
   -- the bases and fields of an opaque compound type are not traced, but they re-queue it
-  if i.kind == .type && i.tk == .comp && i.isOpaque then
-    i.edges ++ i.bases.map (fun b => (b.1, EdgeKind.baseMember)) ++
-      (i.dataFields ++ i.bitfieldTys |>.map fun t => (t, EdgeKind.field))
+  if i.kind == .type && i.isOpaque then
+    if i.tk == .comp then
+      i.edges ++ i.bases.map (fun b => (b.1, EdgeKind.baseMember)) ++
+        (i.dataFields ++ i.bitfieldTys |>.map fun t => (t, EdgeKind.field))
+    else if (i.tk == .alias || i.tk == .templateAlias || i.tk == .blockPointer || i.tk == .vector)
+        && !(i.hasName && i.stdint) then
+      -- opaque and not "traced unconditionally": `Type::trace` is called on its behalf
+      i.edges ++ (optList i.inner).map fun t => (t, EdgeKind.typeReference)
+    else i.edges
   else i.edges
 
 def genDeps (g : IR) (consider : EdgeKind → Bool) (keep : Nat → Bool) : Array (List Nat) :=
@@ -108,7 +116,6 @@ def isType (g : IR) (n : Nat) : Bool := (g.get n).kind == .type
 /-- children that are nodes of the analysis (others are never in any result map: read as ⊥) -/
 def live (g : IR) (cs : List Nat) : List Nat := cs.filter fun c => (g.get c).allowlisted
 
-def optList (o : Option Nat) : List Nat := match o with | some x => [x] | none => []
 
 /-! ## has_vtable -/
 
